@@ -57,16 +57,20 @@ def run(pid, tier, args):
         mism2, done2 = replay_edges(vhbin, wd, edges, "positive")
         v.validated(done2[0])
         mism = mism + [(l_, "[positive token types] " + m_) for l_, m_ in mism2]
+        # ... and with token type 0 elided, a type below -64, and EOF named in the elision set
+        mism3, done3 = replay_edges(vhbin, wd, edges, "odd")
+        v.validated(done3[0])
+        mism = mism + [(l_, "[elided type 0, type -100, EOF in the elision set] " + m_) for l_, m_ in mism3]
         v.sample({"edge": edges[len(edges) // 2], "format": "toks|raw,peek,cur|saved slots|op|arg|result|raw',peek',cur'|saved'"})
         for line, msg in mism[:3]:
             v.violation("transition %s: %s" % (line, msg), {"property": pid, "kind": "edge", "edge": line, "detail": msg})
         # B2: random traces of the real object
         ntr, mlen, steps = (200, 30, 60) if tier == "quick" else (3000, 40, 200)
-        chunk = 200
+        chunk = 70 if tier == "quick" else 200
         ntotal = 0
         for c in range(0, ntr, chunk):
             tf = os.path.join(wd, "trace.ndjson")
-            vlib.vh(vhbin, ["peek-record", str(vlib.seed() * 1000 + c), str(min(chunk, ntr - c)), str(mlen), str(steps)], outfile=tf)
+            vlib.vh(vhbin, ["peek-record", str(vlib.seed() * 999 + c // chunk), str(min(chunk, ntr - c)), str(mlen), str(steps)], outfile=tf)
             lines = open(tf).read().splitlines()
             res, rej = validate_trace(wd, tf)
             v.add_tlc(res)
